@@ -183,7 +183,7 @@ pub struct Features {
 
 impl Default for Features {
     fn default() -> Self {
-        Features { bool_ops: false, prefix_ops: false, let_annotations: false, constants: false, lambda_annotations: false }
+        Features { bool_ops: true, prefix_ops: true, let_annotations: true, constants: false, lambda_annotations: true }
     }
 }
 
@@ -201,7 +201,13 @@ struct G<'a, 'b> {
     helpers: Vec<(String, Vec<Option<String>>, Vec<T>, T)>,
     /// qualified helpers from the imported module `lib`
     lib_helpers: Vec<(String, Vec<T>, T)>,
+    /// module constants (known finding C09-F1: generated only when probing)
+    consts: Vec<(String, T)>,
+    /// locals whose type hangs on a constant's type
+    tainted: Vec<String>,
 }
+
+const CONSTS: &str = "const kint = 42\n\npub const kfloat: Float = 1.5\n\nconst kstr = \"s\"\n\nconst klist = [1, 2]\n\nconst ktup: #(Int, String) = #(1, \"a\")\n\n";
 
 const PRELUDE: &str = "pub type Color {\n  Red\n  Green\n}\n\npub type Box(a) {\n  Box(value: a)\n}\n\npub type Pair(a, b) {\n  Pair(first: a, second: b)\n}\n\npub type Rec {\n  Rec(name: String, age: Int)\n}\n\npub type Shape {\n  Circle(radius: Float)\n  Square(radius: Float, side: Int)\n}\n\npub type Ints =\n  List(Int)\n\n";
 
@@ -217,6 +223,42 @@ impl<'a, 'b> G<'a, 'b> {
     }
     fn ex(&mut self, what: &'static str) {
         *self.excluded.entry(what).or_insert(0) += 1;
+    }
+
+    /// how the type is written in an annotation: structurally, or through an alias of this module or of `lib`
+    fn annot_of(&mut self, t: &T) -> String {
+        if self.c.chance(70) {
+            match t {
+                T::List(e) if **e == T::Int => {
+                    self.tag("alias in annotation");
+                    return if self.c.chance(128) {
+                        "Ints".into()
+                    } else {
+                        self.tag("alias from another module");
+                        "lib.Nums".into()
+                    };
+                }
+                T::Str => {
+                    self.tag("alias in annotation");
+                    self.tag("alias from another module");
+                    return "lib.Name".into();
+                }
+                T::Tuple(ts) if ts.len() == 2 && ts[0] == T::Int && ts[1] == T::Str => {
+                    self.tag("alias in annotation");
+                    self.tag("alias from another module");
+                    return "lib.Entry".into();
+                }
+                _ => {}
+            }
+        }
+        match t {
+            T::List(e) => format!("List({})", self.annot_of(e)),
+            T::Tuple(ts) => format!("#({})", ts.iter().map(|t| self.annot_of(t)).collect::<Vec<_>>().join(", ")),
+            T::Result(a, b) => format!("Result({}, {})", self.annot_of(a), self.annot_of(b)),
+            T::Fn(ps, r) => format!("fn({}) -> {}", ps.iter().map(|t| self.annot_of(t)).collect::<Vec<_>>().join(", "), self.annot_of(r)),
+            T::Adt(n, args) if !args.is_empty() => format!("{}({})", n, args.iter().map(|t| self.annot_of(t)).collect::<Vec<_>>().join(", ")),
+            _ => t.show(),
+        }
     }
 
     fn gen_type(&mut self, depth: usize) -> T {
@@ -255,7 +297,19 @@ impl<'a, 'b> G<'a, 'b> {
                 let v = usable[self.c.below(usable.len())].clone();
                 self.out.push_str(&v);
                 self.tag("variable");
+                if self.tainted.contains(&v) {
+                    self.tag("constant use");
+                }
                 return;
+            }
+        }
+        if self.f.constants {
+            if let Some((n, _)) = self.consts.iter().find(|(_, ty)| ty == t).cloned() {
+                if self.c.chance(50) {
+                    self.out.push_str(&n);
+                    self.tag("constant use");
+                    return;
+                }
             }
         }
         if depth > 0 {
@@ -289,10 +343,13 @@ impl<'a, 'b> G<'a, 'b> {
                 _ => {
                     if self.f.prefix_ops {
                         self.tag("prefix operator");
-                        self.out.push_str("-");
+                        // in a block of its own: a statement must not start with `-` (it would be read
+                        // as a subtraction from the previous expression)
+                        self.out.push_str("{ -");
                         self.expr_operand(&T::Int, 0);
+                        self.out.push_str(" }");
                     } else {
-                        self.ex("prefix operators (known finding C09-F2)");
+                        self.ex("prefix operators");
                         self.out.push_str("7");
                     }
                 }
@@ -364,7 +421,7 @@ impl<'a, 'b> G<'a, 'b> {
                             }
                         }
                     } else {
-                        self.ex("&& || != (known finding C09-F1)");
+                        self.ex("&& || !=");
                         self.out.push_str("True");
                     }
                 }
@@ -374,7 +431,7 @@ impl<'a, 'b> G<'a, 'b> {
                         self.out.push_str("!");
                         self.expr_operand(&T::Bool, 0);
                     } else {
-                        self.ex("prefix operators (known finding C09-F2)");
+                        self.ex("prefix operators");
                         self.out.push_str("False");
                     }
                 }
@@ -424,6 +481,7 @@ impl<'a, 'b> G<'a, 'b> {
             T::Fn(ps, r) => {
                 self.tag("lambda");
                 self.out.push_str("fn(");
+                let annotate_this = self.c.chance(128);
                 let mut names = vec![];
                 for (i, p) in ps.iter().enumerate() {
                     if i > 0 {
@@ -431,17 +489,22 @@ impl<'a, 'b> G<'a, 'b> {
                     }
                     let n = self.fresh("p");
                     self.out.push_str(&n);
-                    if self.f.lambda_annotations && self.c.chance(128) {
+                    if self.f.lambda_annotations && annotate_this {
                         self.out.push_str(": ");
-                        self.out.push_str(&p.annot());
+                        let a = self.annot_of(&p);
+                        self.out.push_str(&a);
                     }
                     names.push((n, p.clone()));
                 }
                 self.out.push_str(") {\n");
                 let mark = self.env.len();
                 // a parameter that is not used leaves its type undetermined: an equality with an
-                // expression of the intended type fixes it
-                for (n, p) in &names {
+                // expression of the intended type fixes it (unless it is annotated)
+                let annotated = self.f.lambda_annotations && annotate_this;
+                if annotated {
+                    self.tag("lambda annotation determines the type");
+                }
+                for (n, p) in names.iter().filter(|_| !annotated) {
                     self.out.push_str(&format!("let _ = {} == ", n));
                     self.expr_operand(p, 0);
                     self.out.push('\n');
@@ -529,6 +592,9 @@ impl<'a, 'b> G<'a, 'b> {
         if !usable.is_empty() && self.c.chance(128) {
             let v = usable[self.c.below(usable.len())].clone();
             self.out.push_str(&v);
+            if self.tainted.contains(&v) {
+                self.tag("constant use");
+            }
             return;
         }
         self.out.push_str("{ ");
@@ -538,6 +604,10 @@ impl<'a, 'b> G<'a, 'b> {
 
     fn record(&mut self, name: &str, offset: usize, ty: T, what: &'static str) {
         let tags = self.tags.clone();
+        self.tainted.retain(|n| n != name);
+        if tags.contains(&"constant use") {
+            self.tainted.push(name.to_string());
+        }
         self.binders.push(Binder { offset, name: name.to_string(), ty, what, tags, fn_params: None });
     }
 
@@ -564,13 +634,36 @@ impl<'a, 'b> G<'a, 'b> {
                 self.out.push_str("let ");
                 let off = self.out.len();
                 self.out.push_str(&name);
-                if self.f.let_annotations && self.c.chance(60) {
+                let mut underdetermined = false;
+                if self.f.let_annotations && self.c.chance(90) {
                     self.out.push_str(": ");
-                    self.out.push_str(&ty.annot());
+                    let a = self.annot_of(&ty);
+                    self.out.push_str(&a);
                     self.tag("let annotation");
+                    // with an annotation the initialiser may leave part of the type open
+                    underdetermined = matches!(ty, T::List(_) | T::Result(..)) && self.c.chance(200);
                 }
                 self.out.push_str(" = ");
-                self.expr(&ty, depth);
+                if self.f.let_annotations && self.tags.contains(&"let annotation") && self.c.chance(30) {
+                    // `let x: T = todo`: the binder exists and has the annotated type
+                    self.tag("annotation determines the type");
+                    self.tag("todo initialiser");
+                    self.out.push_str(*self.c.pick(&["todo", "panic", "todo as \"later\""]));
+                } else if underdetermined {
+                    self.tag("annotation determines the type");
+                    match &ty {
+                        T::List(_) => self.out.push_str("[]"),
+                        T::Result(a, _) => {
+                            self.out.push_str("Ok(");
+                            let a = (**a).clone();
+                            self.expr(&a, 0);
+                            self.out.push(')');
+                        }
+                        _ => {}
+                    }
+                } else {
+                    self.expr(&ty, depth);
+                }
                 self.out.push('\n');
                 self.record(&name, off, ty.clone(), "let binder");
                 self.env.push((name, ty));
@@ -599,23 +692,50 @@ impl<'a, 'b> G<'a, 'b> {
                 let (a, b) = (self.gen_type(1), self.gen_type(1));
                 let (n1, n2) = (self.fresh("v"), self.fresh("v"));
                 self.tag("constructor pattern with labels");
-                let swapped = self.c.chance(128);
                 self.out.push_str("let Pair(");
                 let (o1, o2);
-                if swapped {
-                    self.out.push_str("second: ");
-                    o2 = self.out.len();
-                    self.out.push_str(&n2);
-                    self.out.push_str(", first: ");
-                    o1 = self.out.len();
-                    self.out.push_str(&n1);
-                } else {
-                    self.out.push_str("first: ");
-                    o1 = self.out.len();
-                    self.out.push_str(&n1);
-                    self.out.push_str(", second: ");
-                    o2 = self.out.len();
-                    self.out.push_str(&n2);
+                match self.c.below(5) {
+                    0 => {
+                        self.out.push_str("second: ");
+                        o2 = self.out.len();
+                        self.out.push_str(&n2);
+                        self.out.push_str(", first: ");
+                        o1 = self.out.len();
+                        self.out.push_str(&n1);
+                    }
+                    1 => {
+                        self.out.push_str("first: ");
+                        o1 = self.out.len();
+                        self.out.push_str(&n1);
+                        self.out.push_str(", second: ");
+                        o2 = self.out.len();
+                        self.out.push_str(&n2);
+                    }
+                    2 => {
+                        self.tag("positional sub-patterns");
+                        o1 = self.out.len();
+                        self.out.push_str(&n1);
+                        self.out.push_str(", ");
+                        o2 = self.out.len();
+                        self.out.push_str(&n2);
+                    }
+                    3 => {
+                        self.tag("positional then labelled sub-pattern");
+                        o1 = self.out.len();
+                        self.out.push_str(&n1);
+                        self.out.push_str(", second: ");
+                        o2 = self.out.len();
+                        self.out.push_str(&n2);
+                    }
+                    _ => {
+                        // the labelled sub-pattern takes the first field, the positional one what is left
+                        self.tag("positional sub-pattern after a field taken by label");
+                        o2 = self.out.len();
+                        self.out.push_str(&n2);
+                        self.out.push_str(", first: ");
+                        o1 = self.out.len();
+                        self.out.push_str(&n1);
+                    }
                 }
                 self.out.push_str(") = ");
                 self.expr(&T::Adt("Pair".into(), vec![a.clone(), b.clone()]), depth);
@@ -823,10 +943,20 @@ pub struct Program {
 }
 
 pub fn gen_program(c: &mut Choices, f: &Features) -> Program {
-    let lib = "pub fn same(x: a) -> a {\n  x\n}\n\npub fn twice(x: Int) -> Int {\n  x + x\n}\n".to_string();
-    let mut g = G { c, out: String::new(), binders: vec![], env: vec![], tags: vec![], next: 0, f, excluded: BTreeMap::new(), helpers: vec![], lib_helpers: vec![] };
+    let lib = "pub type Nums =\n  List(Int)\n\npub type Name =\n  String\n\npub type Entry =\n  #(Int, Name)\n\npub fn same(x: a) -> a {\n  x\n}\n\npub fn twice(x: Int) -> Int {\n  x + x\n}\n".to_string();
+    let mut g = G { c, out: String::new(), binders: vec![], env: vec![], tags: vec![], next: 0, f, excluded: BTreeMap::new(), helpers: vec![], lib_helpers: vec![], consts: vec![], tainted: vec![] };
     g.out.push_str("import lib\n\n");
     g.out.push_str(PRELUDE);
+    if f.constants {
+        g.out.push_str(CONSTS);
+        g.consts = vec![
+            ("kint".into(), T::Int),
+            ("kfloat".into(), T::Float),
+            ("kstr".into(), T::Str),
+            ("klist".into(), T::List(Box::new(T::Int))),
+            ("ktup".into(), T::Tuple(vec![T::Int, T::Str])),
+        ];
+    }
     g.helpers.push(("keep".into(), vec![None, None], vec![T::Var("a".into()), T::Var("b".into())], T::Var("a".into())));
     // user functions in random order: forward references and a recursion group are the norm
     let n = 1 + g.c.below(4);
@@ -844,6 +974,7 @@ pub fn gen_program(c: &mut Choices, f: &Features) -> Program {
         let np = g.c.below(3);
         let ret = g.gen_type(2);
         let mut ptys = vec![];
+        g.tags.clear();
         g.out.push_str(if g.c.chance(128) { "pub fn " } else { "fn " });
         let foff = g.out.len();
         g.out.push_str(&name);
@@ -857,8 +988,9 @@ pub fn gen_program(c: &mut Choices, f: &Features) -> Program {
             let off = g.out.len();
             g.out.push_str(&pn);
             g.out.push_str(": ");
-            g.out.push_str(&ty.annot());
-            g.binders.push(Binder { offset: off, name: pn.clone(), ty: ty.clone(), what: "annotated parameter", tags: vec![], fn_params: None });
+            let a = g.annot_of(&ty);
+            g.out.push_str(&a);
+            g.binders.push(Binder { offset: off, name: pn.clone(), ty: ty.clone(), what: "annotated parameter", tags: g.tags.clone(), fn_params: None });
             g.env.push((pn, ty.clone()));
             ptys.push(ty);
         }
@@ -866,8 +998,10 @@ pub fn gen_program(c: &mut Choices, f: &Features) -> Program {
         let annotated_ret = g.c.chance(128);
         if annotated_ret {
             g.out.push_str(" -> ");
-            g.out.push_str(&ret.annot());
+            let a = g.annot_of(&ret);
+            g.out.push_str(&a);
         }
+        let sig_tags = g.tags.clone();
         g.out.push_str(" {\n");
         let nl = g.c.below(4);
         for _ in 0..nl {
@@ -878,8 +1012,12 @@ pub fn gen_program(c: &mut Choices, f: &Features) -> Program {
         g.expr(&ret, 2);
         g.out.push_str("\n}\n\n");
         let mut tags = vec!["function"];
+        tags.extend(sig_tags);
         if !annotated_ret {
             tags.push("return type inferred");
+            if g.tags.contains(&"constant use") {
+                tags.push("constant use");
+            }
         }
         g.binders.push(Binder { offset: foff, name: name.clone(), ty: ret.clone(), what: "function", tags, fn_params: Some(ptys.clone()) });
         fns.push(name.clone());
@@ -958,7 +1096,7 @@ pub fn check_program(ctx: &mut Ctx, p: &Program) -> Result<usize, Failure> {
     let mut interesting = 0;
     for b in &p.binders {
         ctx.eval();
-        let case = json!({"workspace": wsj, "binder": {"offset": b.offset, "name": b.name, "expected": b.ty.show(), "what": b.what, "fn_params": b.fn_params.as_ref().map(|ps| ps.iter().map(|t| t.show()).collect::<Vec<_>>())}});
+        let case = json!({"workspace": wsj, "binder": {"offset": b.offset, "name": b.name, "expected": b.ty.show(), "what": b.what, "tags": b.tags, "fn_params": b.fn_params.as_ref().map(|ps| ps.iter().map(|t| t.show()).collect::<Vec<_>>())}});
         let expected = match &b.fn_params {
             Some(ps) => T::Fn(ps.clone(), Box::new(b.ty.clone())),
             None => b.ty.clone(),
@@ -1018,7 +1156,7 @@ pub fn check_program(ctx: &mut Ctx, p: &Program) -> Result<usize, Failure> {
 
 fn features_from_env() -> Features {
     let p = std::env::var("VERIF_C09_PROBE").unwrap_or_default();
-    Features { bool_ops: p.contains("bool"), prefix_ops: p.contains("prefix"), let_annotations: p.contains("letann"), constants: p.contains("const"), lambda_annotations: p.contains("lamann") }
+    Features { bool_ops: true, prefix_ops: true, let_annotations: true, constants: p.contains("const"), lambda_annotations: !p.contains("nolamann") }
 }
 
 impl Property for C09 {
@@ -1031,7 +1169,7 @@ impl Property for C09 {
     fn assumptions(&self) -> Vec<String> {
         vec![
             "the typing rules the generator relies on are Gleam's documented ones; no let-polymorphism is assumed (each lambda is used at one type)".into(),
-            "features behind recorded findings are generated only when probing (VERIF_C09_PROBE): && || != ; prefix ! and - ; let/lambda annotations; constants".into(),
+            "module constants (known finding C09-F1) are generated only when probing (VERIF_C09_PROBE=const); the finding's witness is replayed on every run".into(),
             "hover markup (```gleam fenced first line) is the observation; if it cannot be interpreted the check ends inconclusive, not with a violation".into(),
         ]
     }
@@ -1054,7 +1192,11 @@ impl Property for C09 {
         if let Some(h) = case.get("stream").and_then(|s| s.as_str()) {
             let bytes = unhex(h);
             let mut c = Choices::new(&bytes);
-            let p = gen_program(&mut c, &features_from_env());
+            let mut f = features_from_env();
+            if case.get("probe").and_then(|p| p.as_str()).map(|p| p.contains("const")).unwrap_or(false) {
+                f.constants = true;
+            }
+            let p = gen_program(&mut c, &f);
             return check_program(ctx, &p).map(|_| ());
         }
         // concrete: one binder
@@ -1064,7 +1206,7 @@ impl Property for C09 {
         let fn_params = b["fn_params"].as_array().map(|a| a.iter().filter_map(|x| x.as_str().and_then(parse_ty)).collect::<Vec<_>>());
         let p = Program {
             ws,
-            binders: vec![Binder { offset: b["offset"].as_u64().unwrap_or(0) as usize, name: b["name"].as_str().unwrap_or("").into(), ty, what: "binder", tags: vec![], fn_params }],
+            binders: vec![Binder { offset: b["offset"].as_u64().unwrap_or(0) as usize, name: b["name"].as_str().unwrap_or("").into(), ty, what: b["what"].as_str().map(|t| &*Box::leak(t.to_string().into_boxed_str())).unwrap_or("binder"), tags: b["tags"].as_array().map(|a| a.iter().filter_map(|t| t.as_str()).map(|t| &*Box::leak(t.to_string().into_boxed_str())).collect()).unwrap_or_default(), fn_params }],
             excluded: BTreeMap::new(),
         };
         check_program(ctx, &p).map(|_| ())
